@@ -56,7 +56,7 @@ def is_channel_loop(node):
     for st_ in PER_CHANNEL:
         if re.search(r"(^|[^a-z_])%s\b" % re.escape(st_), it):
             return "storage"
-    if re.search(r"\b(channels|nbr_channels)\b", it):
+    if re.search(r"\b(channels|nbr_channels)\b", it) or re.search(r"channel_mask\s*\.\s*len\(\)", it):
         return "count"
     return None
 
@@ -115,7 +115,7 @@ def c11_function(T, fname, body, obs, label):
                     return res
                 if k in ("index", "mcall"):
                     b = rp.show(rp.strip_paren(node[1]))
-                    if b in CALLER_BUFS and not under and kind == "mask":
+                    if b in CALLER_BUFS and not under and kind in ("mask", "count") and "channel_mask" in rp.show(l[2]):
                         res.append(rp.show(node)[:70])
                 for c_ in rp.children(node):
                     res += guarded(c_, under)
